@@ -759,6 +759,20 @@ fn big_nodes(c: &mut Ctx, b: &Budget) {
             let back = c.assign(&format!("add {} {}", rm, a));
             c.obs(&format!("eq {} {}", e, back));
             if let (Some(rme), Some(be)) = (c.env(&rm), c.env(&back)) { c.check("remove-restores", rme.assertions().len() == n - 1 && be.is_identical_to(&base), "remove-restores", || format!("remove / add of assertion {} in a node with {} assertions", k, n)); }
+            // removal is by digest: naming the assertion by an obscured form of it removes it just the same, and an obscured assertion that
+            // was added is removed by naming it
+            for form in ["elide", "compress"] {
+                let x = c.assign(&format!("{} {}", form, a));
+                let rm2 = c.assign(&format!("remove {} {}", e, x));
+                c.obs(&format!("eq {} {}", rm, rm2));
+                let added = c.assign(&format!("add {} {}", rm, x));
+                let rm3 = c.assign(&format!("remove {} {}", added, x));
+                c.obs(&format!("eq {} {}", rm, rm3));
+                if let (Some(rme), Some(r2), Some(r3)) = (c.env(&rm), c.env(&rm2), c.env(&rm3)) {
+                    c.check("remove-restores", r2.is_identical_to(&rme), "remove-restores", || format!("removing assertion {} named by its {} form: {} assertions left of {}", k, form, r2.assertions().len(), n));
+                    c.check("remove-restores", r3.is_identical_to(&rme), "remove-restores", || format!("assertion {} added in its {} form and removed again: {} assertions instead of {}", k, form, r3.assertions().len(), n - 1));
+                }
+            }
             // replaced by an equal-digest form of itself: same digest, one element in that slot
             let el = c.assign(&format!("elide {}", a));
             let rp = c.assign(&format!("replace_assertion {} {} {}", e, a, el));
